@@ -200,6 +200,44 @@ func (c *affCtx) parse(v ssa.Value, depth int) *affine {
 		if ascendingFromZero(x) {
 			return affSym("I")
 		}
+		// a second induction variable advanced once per iteration: p = phi(init, (p + k) [% M])
+		// reads init + k*I in the body (I = 0-based iteration index), provided the loop's counter
+		// lives in the same header block
+		if len(x.Edges) == 2 && c.hasCounterIn(x.Block()) {
+			for i := 0; i < 2; i++ {
+				init := c.parse(x.Edges[i], depth+1)
+				step := stripConv(x.Edges[1-i])
+				mod := false
+				if b, ok := step.(*ssa.BinOp); ok && b.Op == token.REM {
+					if m := c.parse(b.Y, depth+1); m != nil && equalExact(m, affSym("M")) {
+						step, mod = stripConv(b.X), true
+					}
+				}
+				b, ok := step.(*ssa.BinOp)
+				if !ok || init == nil || (b.Op != token.ADD && b.Op != token.SUB) {
+					continue
+				}
+				var k *affine
+				if stripConv(b.X) == ssa.Value(x) {
+					k = c.parse(b.Y, depth+1)
+				} else if stripConv(b.Y) == ssa.Value(x) && b.Op == token.ADD {
+					k = c.parse(b.X, depth+1)
+				}
+				if k == nil {
+					continue
+				}
+				kc, isK := k.isConst()
+				if !isK {
+					continue
+				}
+				if b.Op == token.SUB {
+					kc = -kc
+				}
+				r := init.add(affSym("I").scale(kc), 1)
+				r.modM = r.modM || mod
+				return r
+			}
+		}
 	}
 	// anything else: an opaque symbol named by its access path (exact, not modulo)
 	p := c.w.pathOf(v)
@@ -431,8 +469,8 @@ func checkRingRotation(w *World, r *Report, rule string) {
 				}
 				// the element returned with `true`: read at the new head (a load of head after the store) or at the same term
 				hs := setOf(len(g.ins), g.idx[headStore])
-				for _, x := range g.returns {
-					rs := g.ins[x].(*ssa.Return).Results
+				for _, rc := range g.retCases() {
+					rs := rc.res
 					if len(rs) != 2 || w.pathOf(rs[1]) != "K:true" {
 						continue
 					}
@@ -469,4 +507,35 @@ func sliceOf(v ssa.Value) (base, lo, hi ssa.Value) {
 		return s.X, s.Low, s.High
 	}
 	return v, nil, nil
+}
+
+
+// hasCounterIn: the block holds (or feeds) a 0,1,2,... counter: a phi(0, i+1), or the phi(-1, v) of a range loop.
+func (c *affCtx) hasCounterIn(b *ssa.BasicBlock) bool {
+	for _, in := range b.Instrs {
+		switch x := in.(type) {
+		case *ssa.Phi:
+			if ascendingFromZero(x) {
+				return true
+			}
+		case *ssa.BinOp:
+			if ascendingFromZero(x) {
+				return true
+			}
+		}
+	}
+	return false
+}
+
+// popnTransferAffine: PopN's element transfer decided by the affine rule (decided, holds).
+func popnTransferAffine(w *World) (bool, bool) {
+	r := newReport("C14")
+	r.Rule("C14.R5", "", 0)
+	checkRingRotation(w, r, "C14.R5")
+	for _, o := range r.Obs {
+		if strings.HasSuffix(o.Key, "RingBuffer.PopN:offsets") {
+			return !strings.Contains(o.What, "not decided"), o.Verdict == Discharged
+		}
+	}
+	return false, false
 }
